@@ -121,8 +121,8 @@ def gen_pairs(ctx, rng, count):
     out = []
     templates = ["hand_made.mpd", "manifest_a.mpd", "manifest_n.mpd", "hand_made.mpd"]
     for i in range(count):
-        stream = ["bbb", "tears", "syn1", "syn2"][i % 4]
-        man = templates[(i // 4) % 4]
+        stream = ["bbb", "tears", "syn1", "syn2", "syn3"][i % 5]
+        man = templates[(i // 5) % 4]
         depth = rng.choice([20, 40, 60, 120])
         opts = {"timeline": "1", "depth": str(depth)}
         if man == "hand_made.mpd" and rng.random() < .7:
